@@ -31,7 +31,7 @@ type TierCfg struct {
 	AssertMs     int            `json:"assert_ms"`
 	GenericFork  bool           `json:"generic_fork"`
 	AbstractURem bool           `json:"abstract_urem"`
-	AbstractDiv  bool           `json:"abstract_div"` // over-approximate symbolic/symbolic division (exact re-check on sat)
+	AbstractDiv  bool           `json:"abstract_div"`   // over-approximate symbolic/symbolic division (exact re-check on sat)
 	SolverOpts   []string       `json:"solver_options"` // extra SMT-LIB commands sent to the solver at start
 	NoLift       bool           `json:"no_lift"`        // keep Int comparisons in the Int theory (pair with z3's int-blasting bv solver)
 }
@@ -128,6 +128,11 @@ func loadKnownFindings(verifDir string) (open map[string]string) {
 // RunCheck runs all harnesses of a property and returns the process exit code.
 func RunCheck(o RunOpts, propID string) int {
 	start := time.Now()
+	if o.Verbose > 0 {
+		smt.SlowLog = func(tag string, d time.Duration, n int) {
+			fmt.Fprintf(os.Stderr, "slow solver call %.1fs tag=%q asserts=%d\n", d.Seconds(), tag, n)
+		}
+	}
 	cfgPath := filepath.Join(o.VerifDir, "checks", propID+".json")
 	raw, err := os.ReadFile(cfgPath)
 	if err != nil {
